@@ -62,6 +62,9 @@ theorem joinComps_append (a b : List Path) (ha : a ≠ []) (hb : b ≠ []) :
       simp only [List.cons_append] at this ⊢
       simp [joinComps, this]
 
+theorem withinB_iff (d p : Path) : withinB d p = true ↔ Within d p := by
+  simp [withinB, Within, List.isPrefixOf_iff_prefix]
+
 theorem within_refl (p : Path) : Within p p := List.prefix_refl _
 
 theorem within_trans {a b c : Path} (h1 : Within a b) (h2 : Within b c) : Within a c :=
